@@ -7,6 +7,7 @@ import (
 	fpgo "github.com/TeaEntityLab/fpGo/v2"
 	"github.com/TeaEntityLab/fpGo/v2/zzverif/vsched"
 	"verifharness/lib/e1"
+	"verifharness/scenlib"
 )
 
 func errName(err error) string {
@@ -259,6 +260,84 @@ func corExternal(bound int) *vsched.Scenario {
 	}
 }
 
+// ---- WorkerPool ----
+
+// poolClose: Close lands anywhere relative to Schedule calls and to idle / busy workers. No job
+// panics here, so the panic handler must stay silent; no goroutine (submitter, worker, spawn loop,
+// loader) may panic; a Schedule begun after Close returned reports ErrWorkerPoolIsClosed and its
+// job never runs.
+func poolClose(cfg scenlib.PoolCfg, jobs int, kind string, when string, bound int, delay bool) *vsched.Scenario {
+	fam := "pool-close"
+	var g *scenlib.Gauge
+	return &vsched.Scenario{
+		Name:     fmt.Sprintf("pool-close/%s/jobs%d-%s/close-%s", cfg, jobs, kind, when),
+		Bound:    bound,
+		Delay:    delay,
+		TimerDev: true,
+		MaxSteps: 6000,
+		Horizon:  int64(300 * time.Millisecond),
+		Body: func() {
+			g = &scenlib.Gauge{}
+			p := scenlib.NewPool(cfg, func(v interface{}) { vsched.Event("panic-handler", fmt.Sprint(v)) })
+			started := make(chan int, jobs+1)
+			scheduled := make(chan int, 1)
+			vsched.GoNamed("submitter", func() {
+				for j := 1; j <= jobs; j++ {
+					job := scenlib.Job(j, kind, g)
+					vsched.Event("sched", j, scenlib.SchedErr(p.Schedule(func() { started <- 1; job() })))
+				}
+				scheduled <- 1
+			})
+			switch when {
+			case "scheduled": // workers may be idle, spawning or busy
+				<-scheduled
+			case "started": // a worker is inside a job
+				<-started
+			case "idle": // everything has run, workers are parked on the job channel
+				time.Sleep(100 * time.Millisecond)
+			}
+			p.Close()
+			vsched.Event("pool-closed", p.IsClosed())
+			vsched.Event("late-sched", scenlib.SchedErr(p.Schedule(scenlib.Job(99, "plain", g))))
+		},
+		Check: func(r *vsched.Result) []vsched.Failure {
+			fs := e1.Basic("C15", fam, r, nil)
+			if len(r.Panics) > 0 || r.Cap != "" {
+				return fs
+			}
+			if n := e1.Count(r, "panic-handler"); n > 0 {
+				fs = append(fs, e1.Fail("C15|"+fam+"|panic-handler-invoked", "the pool's panic handler was invoked %d time(s) although no job panics: %v", n, r.Events[e1.Index(r, "panic-handler")].Args))
+			}
+			if e1.Count(r, "pool-closed", true) != 1 {
+				fs = append(fs, e1.Fail("C15|"+fam+"|is-closed", "IsClosed() false after Close returned"))
+			}
+			if e1.Count(r, "late-sched", "closed") != 1 {
+				fs = append(fs, e1.Fail("C15|"+fam+"|after-close-result", "Schedule begun after Close returned did not report ErrWorkerPoolIsClosed: %v", r.Events))
+			}
+			if e1.Count(r, "start", 99) > 0 {
+				fs = append(fs, e1.Fail("C15|"+fam+"|ran-after-close", "a job scheduled after Close returned was run"))
+			}
+			for j := 1; j <= jobs; j++ {
+				if e1.Count(r, "start", j) > 1 {
+					fs = append(fs, e1.Fail("C15|"+fam+"|duplicate", "job %d ran twice", j))
+				}
+				for _, e := range r.Events {
+					if e.Kind == "sched" && e.Args[0].(int) == j {
+						res := e.Args[1].(string)
+						if res != "accepted" && res != "closed" && res != "queue-closed" && res != "full" {
+							fs = append(fs, e1.Fail("C15|"+fam+"|error-code", "Schedule concurrent with Close returned %s", res))
+						}
+						if res != "accepted" && e1.Count(r, "start", j) > 0 {
+							fs = append(fs, e1.Fail("C15|"+fam+"|rejected-ran", "job %d was rejected (%s) but ran", j, res))
+						}
+					}
+				}
+			}
+			return fs
+		},
+	}
+}
+
 func scenarios(tier string) []*vsched.Scenario {
 	b := 2
 	if tier == "thorough" {
@@ -283,6 +362,15 @@ func scenarios(tier string) []*vsched.Scenario {
 	for _, cf := range cfgs {
 		for _, op := range ops {
 			out = append(out, queueClose(cf.c, cf.b, cf.pre, op, b))
+		}
+	}
+	pc := []scenlib.PoolCfg{{Cap: 1, Buf: 1, Max: 1, StandBy: 1, Batch: 1}, {Cap: 1, Buf: 0, Max: 2, StandBy: 0, Batch: 1}}
+	for _, c := range pc {
+		for _, when := range []string{"now", "scheduled", "started", "idle"} {
+			out = append(out, poolClose(c, 1, "plain", when, 1, false), poolClose(c, 2, "slow", when, 2, true))
+			if tier == "thorough" {
+				out = append(out, poolClose(c, 2, "plain", when, 2, false), poolClose(c, 3, "slow", when, 3, true))
+			}
 		}
 	}
 	out = append(out, corFinish(1, 1, b), corFinish(2, 1, b), corFinish(2, 2, b), corExternal(b))
